@@ -422,6 +422,7 @@ func (s *Sorts) preamble(extraSorts []string, ufuncs []string, axioms []string) 
 (assert (forall ((s Bool)) (! (= (unbox_Bool (box_Bool s)) s) :pattern ((box_Bool s)))))
 (declare-fun box_Float (Float) Int)
 (declare-fun unbox_Float (Int) Float)
+(assert (forall ((s Float)) (! (= (unbox_Float (box_Float s)) s) :pattern ((box_Float s)))))
 (declare-fun box_Slice (Slice) Int)
 (declare-fun unbox_Slice (Int) Slice)
 (assert (forall ((s Slice)) (! (= (unbox_Slice (box_Slice s)) s) :pattern ((box_Slice s)))))
